@@ -275,6 +275,10 @@ func genDecimal(rng__ *rand.Rand) *Decimal {
 	if rng__.Intn(40) == 0 {
 		d.Exponent = []int32{100000, -100000, 99999, -99990, 50000}[rng__.Intn(5)]
 	}
+	if rng__.Intn(60) == 0 {
+		// exponents below Emin that many-digit (or subnormal) results legitimately carry, and one beyond every limit
+		d.Exponent = []int32{-100001, -100013, -100030, 100001}[rng__.Intn(4)]
+	}
 	d.Negative = rng__.Intn(3) == 0
 	switch rng__.Intn(16) {
 	case 0:
@@ -745,6 +749,14 @@ func concretise(W *World, o *Obligation, timeout time.Duration) *Witness {
 	for _, line := range strings.Split(out, "\n") {
 		if i := strings.Index(line, "RACFAIL "); i >= 0 {
 			msg := line[i+8:]
+			if strings.Contains(msg, "kind=hang") && (strings.Contains(o.Name, "/errexit") || strings.Contains(o.Name, "/decreases")) {
+				// the failed obligation is a termination obligation and the real code did not return on this input
+				w.Confirmed = true
+				trial := ""
+				fmt.Sscanf(msg, "trial=%s", &trial)
+				w.Desc = map[string]interface{}{"failing_input": msg, "trial": trial, "seed": seed, "function": o.Fn, "note": "the call did not return within the 10 s watchdog"}
+				return w
+			}
 			if strings.Contains(msg, "kind=hang") {
 				// a run that exceeds the watchdog may be slow rather than hung: reported, not counted as a confirmation
 				w.Desc = map[string]interface{}{"note": "an input exceeded the 10 s watchdog (slow or hung): " + msg, "seed": seed}
